@@ -124,6 +124,14 @@ func (p *BaseParty) unlock() {
 	p.mtx.Unlock()
 }
 
+// BaseWrapError wraps an error with the party's current round for callers that do not hold the party lock
+// (Start or another Update may be changing the round at the same time).
+func BaseWrapError(p Party, err error, culprits ...*PartyID) *Error {
+	p.lock()
+	defer p.unlock()
+	return p.WrapError(err, culprits...)
+}
+
 // ----- //
 
 func BaseStart(p Party, task string, prepare ...func(Round) *Error) *Error {
@@ -175,16 +183,16 @@ func BaseStart(p Party, task string, prepare ...func(Round) *Error) *Error {
 
 // an implementation of Update that is shared across the different types of parties (keygen, signing, dynamic groups)
 func BaseUpdate(p Party, msg ParsedMessage, task string) (ok bool, err *Error) {
-	// fast-fail on an invalid message; do not lock the mutex yet
-	if _, err := p.ValidateMessage(msg); err != nil {
-		return false, err
-	}
 	// lock the mutex. need this mtx unlock hook; L108 is recursive so cannot use defer
 	r := func(ok bool, err *Error) (bool, *Error) {
 		p.unlock()
 		return ok, err
 	}
 	p.lock() // data is written to P state below
+	// fast-fail on an invalid message (under the lock: the error is wrapped with the current round)
+	if _, err := p.ValidateMessage(msg); err != nil {
+		return r(false, err)
+	}
 	common.Logger.Debugf("party %s received message: %s", p.PartyID(), msg.String())
 	if p.round() != nil {
 		common.Logger.Debugf("party %s round %d update: %s", p.PartyID(), p.round().RoundNumber(), msg.String())
